@@ -797,7 +797,7 @@ func runRecursionRule(p *Prog, c *Ctx) {
 		}
 		pos := p.pos(comp[0].Pos())
 
-		loads := false   // the cycle loads a new template file
+		loads := false    // the cycle loads a new template file
 		reflects := false // the cycle re-enters on a value obtained by reflection
 		for _, f := range comp {
 			for _, site := range callsIn(f) {
